@@ -208,7 +208,8 @@ func (r *RoundRobin) UpsertServer(u *url.URL, options ...ServerOption) error {
 				return err
 			}
 		}
-		*s = updated
+		// only what an option can change: the URL is read by NextServer after it has let go of the lock
+		s.weight = updated.weight
 		r.resetState()
 		return nil
 	}
